@@ -128,7 +128,11 @@ def ipv4():
 
 def _v6_spellings(n):
     a = ipaddress.IPv6Address(n)
-    return [a.compressed, a.exploded, a.compressed.upper(), a.exploded.upper()]
+    groups = a.exploded.split(":")
+    quad = str(ipaddress.IPv4Address(n & 0xFFFFFFFF))
+    long_mixed = ":".join(groups[:6]) + ":" + quad  # up to 45 characters: the longest textual form
+    short_mixed = ":".join(g.lstrip("0") or "0" for g in groups[:6]) + ":" + quad
+    return [a.compressed, a.exploded, a.compressed.upper(), a.exploded.upper(), long_mixed, long_mixed.upper(), short_mixed, ":".join(g.lstrip("0") or "0" for g in groups)]
 
 
 def ipv6(zone=True):
@@ -137,7 +141,7 @@ def ipv6(zone=True):
         st.sampled_from([0, 1, 0xFE80 << 112 | 1, (0x20010DB8 << 96) | 0xFF00428329, 0xFFFF << 32 | 0x7F000001, 2 ** 128 - 1, 0xFE80 << 112 | 0xA]),
         st.integers(0, 2 ** 16).map(lambda x: x << 64),
     )
-    base = st.builds(lambda n, k: _v6_spellings(n)[k], nums, st.integers(0, 3))
+    base = st.builds(lambda n, k: _v6_spellings(n)[k], nums, st.integers(0, 7))
     emb = st.builds(lambda n: "::ffff:" + str(ipaddress.IPv4Address(n)), st.integers(0, 2 ** 32 - 1))
     addr = st.one_of(base, base, emb)
     if not zone:
